@@ -148,7 +148,7 @@ def check(ctx):
 
     for rel, fname in ((PC, "_quote_paths"), (BC, "_bash_quote_paths")):
         m = ctx.repo.module(rel)
-        fn = m.func(fname)
+        fn = flat(ctx, m.func(fname), depth=1, skip=("name_needs_quotes", "_quote_to_use", "_bash_quote_to_use", "quote_to_use", "_has_control_chars", "_is_directory_in_cdpath", "_bash_unescape", "_bash_expand_path"))
         site = f"{rel}:{fname}"
         cfg = CFG(fn)
         defs = df.all_defs(fn)
@@ -166,11 +166,27 @@ def check(ctx):
             raise AnchorMissing(f"{site}: the assembly `<start> + <name> + <end>` was not found exactly once ({len(asm)})")
         anode, OPEN, BODY, CLOSE = asm[0]
 
+        # the text between the delimiters may travel through other locals (a helper's parameter `body = s + tail`,
+        # `s = body` on the way back): every name connected with BODY by assignments that read one another
+        BODYSET = {BODY}
+        for _ in range(4):
+            for n_, ds_ in defs.items():
+                if "." in n_:
+                    continue
+                for d_ in ds_:
+                    if d_.value is None or d_.kind not in ("assign", "aug"):
+                        continue
+                    reads_ = df.names_read(d_.value)
+                    if n_ in BODYSET and isinstance(d_.value, (ast.Name, ast.BinOp)) and not isinstance(d_.value, ast.Call):
+                        BODYSET |= {r_ for r_ in reads_ if r_ in defs and any(isinstance(dd.value, (ast.Name, ast.BinOp, ast.Call)) for dd in defs[r_] if dd.value is not None) and r_ not in (OPEN, CLOSE)} if isinstance(d_.value, ast.Name) else set()
+                    if (reads_ & BODYSET) and isinstance(d_.value, (ast.Name, ast.BinOp)) and n_ not in (OPEN, CLOSE):
+                        BODYSET.add(n_)
+
         def repl_of(n, what):
-            """the `BODY = BODY.replace(<what>, X)` call of a node, or None"""
-            if n.kind == "stmt" and isinstance(n.ast, ast.Assign) and unparse(n.ast.targets[0]) == BODY:
+            """the `X = X.replace(<what>, E)` call of a node (X one of the body's names), or None"""
+            if n.kind == "stmt" and isinstance(n.ast, ast.Assign) and unparse(n.ast.targets[0]) in BODYSET:
                 c = n.ast.value
-                if isinstance(c, ast.Call) and unparse(c.func) == f"{BODY}.replace" and len(c.args) == 2 and unparse(c.args[0]) == what:
+                if isinstance(c, ast.Call) and isinstance(c.func, ast.Attribute) and c.func.attr == "replace" and unparse(c.func.value) == unparse(n.ast.targets[0]) and len(c.args) == 2 and unparse(c.args[0]) == what:
                     return c
             return None
 
@@ -180,9 +196,31 @@ def check(ctx):
         if not ok:
             continue
         # every path to the assembly tests `CLOSE in BODY`, and the true edge leads to the escape
-        tests = [n for n in cfg.nodes if n.kind == "if" and unparse(n.ast.test) == f"{CLOSE} in {BODY}"]
-        ok = bool(tests) and cfg.dominated(anode, lambda x: x in tests) and all(any(cfg.edge_dominates(t, "true", e) for t in tests) for e in esc_nodes)
-        ctx.ob("R3", site, f"every path to the assembly passes the test `{CLOSE} in {BODY}` whose true edge is the escape (no path emits an unescaped delimiter)", ok, key=f"{fname}|escape-skipped", where=loc(anode.ast))
+        # every path to the assembly passes the escape - except paths on which there is nothing to escape: the
+        # delimiter is empty, or is known not to occur in the text (`end in s` false)
+        def nothing_to_escape(a_, b_, label):
+            if a_.kind not in ("if", "while") or label not in ("true", "false"):
+                return False
+            for e_, pol_ in implied_facts(a_.ast.test, label == "true"):
+                from ..engine.dtable import normalise as _nm
+
+                e2_, p2_ = _nm(e_, pol_)
+                t_ = unparse(e2_)
+                if t_ == f"{CLOSE} == ''" and p2_:
+                    return True
+                if any(t_ == f"{CLOSE} in {x_}" for x_ in BODYSET) and not p2_:
+                    return True
+            return False
+
+        loop_ = next((l for l in walk_local(fn) if isinstance(l, ast.For) and any(anode.ast is y for y in ast.walk(l))), None)
+        inner_ = CFG(loop_.body) if loop_ is not None else cfg
+        esc_in = [n for n in inner_.nodes if repl_of(n, CLOSE) is not None]
+        asm_in = [n for n in inner_.nodes if n.ast is anode.ast]
+        ok = bool(esc_in) and bool(asm_in)
+        if ok:
+            seen_ = inner_.reach([inner_.entry], stop=lambda x: x in esc_in, skip_edge=nothing_to_escape)
+            ok = not any(a_ in seen_ for a_ in asm_in)
+        ctx.ob("R3", site, f"every path to the assembly passes the escape of `{CLOSE}` unless there is nothing to escape (empty delimiter, or `{CLOSE} in <text>` false)", ok, key=f"{fname}|escape-skipped", where=loc(anode.ast))
         # nothing rebinds the delimiter (or the name) between the escape and the assembly
         for e in esc_nodes:
             seen = cfg.reach([e], stop=lambda x: x is anode)
